@@ -203,5 +203,6 @@ func (c *Ctx) size(quick, thorough int) int {
 	if c.tier == "thorough" {
 		return thorough
 	}
-	return quick
+	// the quick tier is sized to finish within about half a minute on 16 cores
+	return quick * 3
 }
